@@ -368,3 +368,30 @@ class RegexInit(Contract):
 
 
 CONTRACTS = [Group(), Span(), Start(), End(), Search(), Transcribe(), RegexInit()]
+
+
+class SeqMatchInit(Contract):
+    """a match object keeps the underlying match, the searched record and the shift it is given"""
+    file, qual = FILE, "SeqMatch.__init__"
+    props = ("C16",)
+    inline_at_call_sites = True
+    variants = ("with-shift", "default-shift")
+
+    def setup(self, ex, st, variant):
+        self.variant = variant
+        a = dict(self=VObj("SeqMatch"), match=mk_match(ex, st, "m"), rec=mk_rec(ex, st, "CircularRecord", "rec"))
+        if variant == "with-shift":
+            a["shift"] = VT(tm.V("shift", INT))
+        return a
+
+    def ensures(self, ex, pre, st, a, result):
+        s = a["self"]
+        sh = st.get(s, "shift")
+        return [("keeps-the-match", tm.B(st.get(s, "match") is a["match"])), ("keeps-the-record", tm.B(st.get(s, "rec") is a["rec"])),
+                ("keeps-the-shift", tm.eq(sh.t, a["shift"].t if self.variant == "with-shift" else 0) if isinstance(sh, VT) else tm.FALSE)]
+
+    def result(self, ex, st, a):
+        return [(st, NONE)]
+
+
+CONTRACTS.append(SeqMatchInit())
